@@ -14,6 +14,8 @@ from props import c03
 PROP = "C10"
 
 WIDTHS = [8, 16, 32, 64, 128, 7]
+FPENC_KIND = 0      # operand kind index of FPEncoding (set from the grammar in run())
+FPENC_VALUE = 0     # a declared FPEncoding enumerant
 
 
 def atoms():
@@ -23,6 +25,9 @@ def atoms():
         for s in (0, 1):
             out.append(("int%d_%d" % (w, s), lambda st, w=w, s=s: "15/-/%x/L%x,L%x" % (st.new_type(("int", w)), w, s)))
         out.append(("float%d" % w, lambda st, w=w: "16/-/%x/L%x" % (st.new_type(("float", w)), w)))
+        if w in (8, 16, 64):
+            # OpTypeFloat with its optional FPEncoding operand: still a float of that width for the tracker
+            out.append(("floatenc%d" % w, lambda st, w=w: "16/-/%x/L%x,E%d.%x" % (st.new_type(("float", w)), w, FPENC_KIND, FPENC_VALUE)))
     out.append(("undef", lambda st: "1/%x/%x/-" % (st.pick_type_or_value(), st.new_value())))
     out.append(("copy", lambda st: "53/%x/%x/R1" % (st.pick_type_or_value(), st.new_value())))  # OpCopyObject
     # value definitions inside a function body: the tracker must not care where a value is defined
@@ -100,7 +105,7 @@ class St:
 def histories(rng, tier):
     at = atoms()
     # exhaustive short interleavings over a reduced alphabet + random longer ones
-    small = [a for a in at if a[0] in ("int32_1", "int64_0", "int8_0", "int128_0", "float16", "float64", "float7", "undef", "const", "specconst", "switch2", "fn", "iadd")]
+    small = [a for a in at if a[0] in ("int32_1", "int64_0", "int8_0", "int128_0", "float16", "float64", "float7", "floatenc64", "undef", "const", "specconst", "switch2", "fn", "iadd")]
     L = 4 if tier == "thorough" else 3
     for n in range(1, L + 1):
         for combo in itertools.product(small, repeat=n):
@@ -125,6 +130,9 @@ def run(rep):
     if p.exe:
         mexe, merr = corr.build_modelrun()
         g = sg.Grammar()
+        global FPENC_KIND, FPENC_VALUE
+        FPENC_KIND = g.kidx["FPEncoding"]
+        FPENC_VALUE = g.enum_values("FPEncoding")[0]
         rng = random.Random(rep.seed)
         rp = refparse.RefParser(g)
         lines, datas = [], []
